@@ -324,7 +324,7 @@ def run(ctx: Ctx) -> int:
             rep.mismatch(b["scn"], b["detail"], classify(b["scn"], b["detail"]))
     # ---- parallel mode (own process pools: run outside the daemonic pmap workers) ----------------------------
     with_ss = [p for p in pick if p["hasss"]]
-    n_par = 12 if ctx.quick else 160
+    n_par = 20 if ctx.quick else 160
     par_pts = with_ss if len(with_ss) <= n_par else rnd.sample(with_ss, n_par)
     from concurrent.futures import ProcessPoolExecutor
     import multiprocessing as mp
